@@ -218,13 +218,20 @@ type c05Exported struct {
 }
 
 // c05Export compiles src and exports it.
-func c05Export(src string, sizes [][]int) (ex *c05Exported, err error) {
+func c05Export(src string, sizes [][]int, opt c05StreamOpt) (ex *c05Exported, err error) {
 	defer func() {
 		if r := recover(); r != nil {
 			err = fmt.Errorf("export panic: %v", r)
 		}
 	}()
 	params := utils.NewParams()
+	// the per-step circuits are compiled under the session's parameters
+	if opt.multArray != 0 {
+		params.CircMultArrayTreshold = opt.multArray
+	}
+	if opt.maxUnroll != 0 {
+		params.MaxLoopUnroll = opt.maxUnroll
+	}
 	defer params.Close()
 	prog, _, err := compiler.New(params).CompileSSA("{data}", strings.NewReader(src), sizes)
 	if err != nil {
